@@ -196,6 +196,11 @@ C12_Viol(r) ==
          LET ev == CHOOSE k \in 1..Len(r.o.base) : r.o.base[k][1] = "alloc" IN
          ~(r.o.addr >= r.o.base[ev][4] /\ r.o.addr + r.args.sz <= r.o.base[ev][4] + r.o.base[ev][5])
     \/ \E i \in 1..(Len(r.o.chunks) - 1) : r.o.chunks[i + 1][2] < 2 * r.o.chunks[i][2] - 16   \* growth
+    \* with_capacity(layout): the chunk the constructor makes fits that layout
+    \/ r.a = "ctor" /\ r.args.k = "with_capacity" /\ Ok(r) /\ Len(r.o.chunks) >= 1 /\
+         LET c == Chunk(r.o.chunks[1])  n == r.args.n  al == r.args.al IN
+         IF r.cfg.up THEN ((c.lo + al - 1) \div al) * al + n > c.hi
+                     ELSE c.hi < n \/ (c.hi - n) - ((c.hi - n) % al) < c.lo
 
 (***************************************************************************)
 (* C13  reclaiming the newest allocation; opt-outs honoured                *)
@@ -271,7 +276,7 @@ C14_Viol(r) ==
 (***************************************************************************)
 (* C18  changing the minimum alignment                                     *)
 (***************************************************************************)
-AlignedFrame(r) == r.a \in {"enter", "exit"} /\ r.args.kind \in {"aligned", "saligned", "bmws"}
+AlignedFrame(r) == r.a \in {"enter", "exit"} /\ r.args.kind \in {"aligned", "saligned", "bmws", "bvws"}
 PosAligned(o, n) == o.cur = 0 \/ o.chunks[o.cur][5] % n = 0
 C18_Viol(r) ==
     \/ r.a = "enter" /\ AlignedFrame(r) /\ (r.o.res # "ok" \/ r.o.ma # r.args.n \/ ~PosAligned(r.o, r.args.n))
